@@ -84,12 +84,17 @@ type Config struct {
 	Clients   bool // commands enter through real ClientIO.ExecCommand calls (C06)
 	NilSigs   bool // scripted actors may send messages with absent signature objects (C10-class)
 	Async     bool // asynchronous vote verification (goroutine per vote), as in production
+	FetchLoss int  // percent of block requests whose reply is lost while faults are allowed
 	Label     string
 }
 
 func (c Config) String() string {
-	return fmt.Sprintf("n=%d %s %s cache=%d leader=%s twins=%v scripted=%v byzrules=%v profile=%s steps=%d batch=%d",
+	s := fmt.Sprintf("n=%d %s %s cache=%d leader=%s twins=%v scripted=%v byzrules=%v profile=%s steps=%d batch=%d",
 		c.N, c.Ruleset, c.Scheme, c.Cache, c.Leader, c.Twins, c.Scripted, c.ByzRules, fmt.Sprintf("%s/%d", c.Profile, c.Intensity), c.Steps, c.BatchSize)
+	if c.FetchLoss > 0 {
+		s += fmt.Sprintf(" fetchloss=%d%%", c.FetchLoss)
+	}
+	return s
 }
 
 // Pending is a message in flight.
@@ -132,6 +137,9 @@ type Cluster struct {
 	sending                                                        int // actor idx whose handlers are running (sender attribution)
 	// Cut lists individual links that are down (in addition to the partition groups).
 	Cut map[[2]int]bool
+	// FetchDeny: the next k block requests for a hash get no reply (lost reply); FetchLost counts lost requests.
+	FetchDeny map[hotstuff.Hash]int
+	FetchLost int
 	// CutLoss: every message sent across a cut link is lost (instead of half of them being delayed).
 	CutLoss bool
 	// NoFaults switches off fault injection inside lockstepRound (synchronous suffix of C05).
@@ -283,6 +291,18 @@ func (c *Cluster) enqueue(from, to *Actor, msg any) {
 
 // fetch serves a block request from whoever is reachable.
 func (c *Cluster) fetch(a *Actor, h hotstuff.Hash) (*hotstuff.Block, bool) {
+	if k := c.FetchDeny[h]; k > 0 {
+		c.FetchDeny[h] = k - 1
+		c.FetchLost++
+		c.trace(TraceEntry{Kind: "fetch-lost", From: a.Name()})
+		return nil, false
+	}
+	if c.Cfg.FetchLoss > 0 && !c.NoFaults && c.Rng.Intn(100) < c.Cfg.FetchLoss {
+		c.FetchLost++
+		c.FaultSteps++
+		c.trace(TraceEntry{Kind: "fetch-lost", From: a.Name()})
+		return nil, false
+	}
 	for _, o := range c.Actors {
 		if o == a || o.Crashed || !c.linkOpen(a, o) {
 			continue
